@@ -21,6 +21,19 @@ EXEC = {
                 q='file:0,universe:1200,random:500', t='file:0,universe:0,random:12000'),
     'C05': dict(owns=['C05'], decide='C05_NonInterference, M_DestAll (MC); logged issues off catching paths = reference of Uncatch(schema)',
                 q='file:0,universe:1200,random:500,catch:400', t='file:0,universe:0,random:8000,catch:6000'),
+    'C04': dict(owns=['C04', 'C02T'], decide='TableOK (the reference obeys the literal statement of C04 on every row of Tab_C04), C04_Machine (MC over all rows); '
+                'every row replayed on the real library: required/not_nil bag, destination = reference, recording tests show whether tests ran',
+                q='file:0,random:300', t='file:0,random:6000', table='Tab_C04'),
+    'C10': dict(owns=['C10'], decide='issue map structure on every logged result (key = path, $first = first recorded issue event, sanitizers), lock-step field events '
+                '(schema key -> resolved input key, KeyOf tag priority at every depth), PathStr grammar through the C02 bag',
+                q='file:0,tags:900,random:300', t='file:0,tags:12000,random:4000'),
+    'C12': dict(owns=['C12'], decide='C12_PTOnlyWhenClean, C12_CallbackArgs (MC); lock-step test/pt events with argument class, value seen and ctx.Get snapshot',
+                q='file:0,universe:600,callbacks:700,random:300', t='file:0,universe:0,callbacks:10000,random:4000'),
+    'C13': dict(owns=['C13'], decide='pairs Validate(&v) / Parse(toMap(v), &fresh) on fully populated values: TLC compares the two logged results (path, code, type, message, value) '
+                'and each with the reference',
+                q='file:0,pairs:1200', t='file:0,pairs:20000'),
+    'C03': dict(owns=['C03'], decide='C03_Dest (MC); logged destination of every successful Parse = RefDestParse (leaf values, slice length/order, untouched optionals, pointer allocation, $extra)',
+                q='file:0,universe:600,success:900,random:300', t='file:0,universe:0,success:12000,random:4000'),
     'C09': dict(owns=['C09'], decide='every visit order explored by StructField (MC); all n! forced orders of each real case agree',
                 q='file:0,universe:1200,random:500', t='file:0,universe:0,random:12000'),
 }
@@ -60,39 +73,38 @@ def gen_traps():
     return cache, [c['id'] for c in cases]
 
 
-def attribute(prop, owns, verdicts, trace_file, known):
-    """Split verdicts into violations of `prop`, known findings, and verdicts owned by other properties."""
+def attribute(prop, owns, verdicts, trace_file, known, module='Trace_Exec', base_consts=None):
+    """Split verdicts into violations of `prop`, known findings, and verdicts owned by other properties.
+
+    A verdict is attributed to a listed known finding F iff the offending trace produces no verdict owned
+    by `prop` when validated against the specification variant that has exactly F's named deviation
+    (F['variant'] constants) -- same case, same observed choices -- while the clean specification rejects it.
+    Anything no listed variant explains stays a violation."""
     mine = [v for v in verdicts if v['prop'] in owns]
     others = {}
     for v in verdicts:
         if v['prop'] not in owns:
             others[v['prop']] = others.get(v['prop'], 0) + 1
-    viol, kf = [], {}
-    for v in mine:
-        hit = None
-        for k in known.get('known', []):
-            if k['property'] == prop and vlib_match(k, v, trace_file):
-                hit = k
-                break
-        if hit:
-            kf.setdefault(hit['id'], [hit, 0])[1] += 1
-        else:
-            viol.append(v)
-    return viol, kf, others
-
-
-def vlib_match(k, v, trace_file):
-    m = k.get('match', {})
-    if m.get('kind') and m['kind'] != v['kind']:
-        return False
-    if m.get('verdict_prop') and m['verdict_prop'] != v['prop']:
-        return False
-    needle = m.get('case_contains')
-    if needle:
-        lines = vlib.extract_trace(trace_file, v['id'])
-        if not lines or not all(n in lines[0] for n in needle):
-            return False
-    return True
+    kf = {}
+    remaining = mine
+    for k in known.get('known', []):
+        if k['property'] != prop or not remaining or not k.get('variant'):
+            continue
+        ids = sorted({v['id'] for v in remaining})
+        d = vlib.scratch('kf.')
+        sub = os.path.join(d, 'sub.ndjson')
+        with open(sub, 'w') as f:
+            for tid in ids:
+                f.writelines(vlib.extract_trace(trace_file, tid))
+        consts = dict(base_consts or vlib.exec_consts(soft='any'))
+        consts.update(k['variant'])
+        vs, _ = vlib.validate_traces(module, sub, consts)
+        still = {v['id'] for v in vs if v['prop'] in owns}
+        explained = [v for v in remaining if v['id'] not in still]
+        if explained:
+            kf[k['id']] = [k, len({v['id'] for v in explained})]
+        remaining = [v for v in remaining if v['id'] in still]
+    return remaining, kf, others
 
 
 def exec_engine(prop, tier, replay, t0):
@@ -106,15 +118,33 @@ def exec_engine(prop, tier, replay, t0):
     if replay:
         st = vlib.harness(['exec', '-plan', 'file:0', '-cases', replay, '-out', trace])
     else:
-        # (A) exhaustive model checking of the traversal machine
-        cfg = vlib.cfg_text(vlib.exec_consts(extra={'Tier': '"%s"' % tier}), invariants=EXEC_INVS, properties=EXEC_PROPS, view='View')
-        mc = vlib.run_tlc('MC_Exec', cfg, workers=16, timeout=7200 if tier == 'thorough' else 900)
-        vlib.tlc_ok(mc, 'MC_Exec/' + tier)
-        # (B) TLC-generated universe and trap cases, (C) recorded traces
-        uni = gen_universe('quick')
         trapfile, traps = gen_traps()
+        casefile = os.path.join(d, 'cases.ndjson')
+        shutil.copy(trapfile, casefile)
+        table_rows = 0
+        if spec.get('table'):
+            # (A) a decision table: TLC checks the table-level invariant, emits every row, and model-checks the machine on all rows
+            mod = spec['table']
+            consts = vlib.exec_consts(extra={'CasesFile': '"cases.ndjson"'})
+            g = vlib.run_tlc(mod, vlib.cfg_text(consts, init='GenInit', next_='GenNext'), workers=1, timeout=600)
+            vlib.tlc_ok(g, mod + '/table')
+            rows = open(os.path.join(g['dir'], 'cases.ndjson')).read()
+            table_rows = rows.count('\n')
+            with open(casefile, 'a') as f:
+                f.write(rows)
+            mc = vlib.run_tlc(mod, vlib.cfg_text(consts, invariants=EXEC_INVS + ['C04_Machine'], properties=EXEC_PROPS, view='View'), workers=16, timeout=1800)
+            vlib.tlc_ok(mc, mod + '/machine')
+            mc_desc = '%s: table invariant TableOK over %d rows; machine on every row, invariants %s' % (mod, table_rows, EXEC_INVS + ['C04_Machine'])
+        else:
+            # (A) exhaustive model checking of the traversal machine
+            cfg = vlib.cfg_text(vlib.exec_consts(extra={'Tier': '"%s"' % tier}), invariants=EXEC_INVS, properties=EXEC_PROPS, view='View')
+            mc = vlib.run_tlc('MC_Exec', cfg, workers=16, timeout=7200 if tier == 'thorough' else 900)
+            vlib.tlc_ok(mc, 'MC_Exec/' + tier)
+            mc_desc = 'MC_Exec Tier=%s invariants=%s properties=%s' % (tier, EXEC_INVS, EXEC_PROPS)
+        # (B) TLC-generated universe, table and trap cases, (C) recorded traces
+        uni = gen_universe('quick')
         plan = spec['q'] if tier == 'quick' else spec['t']
-        st = vlib.harness(['exec', '-plan', plan, '-cases', trapfile, '-universe', uni, '-seed', str(vlib.seed()), '-out', trace])
+        st = vlib.harness(['exec', '-plan', plan, '-cases', casefile, '-universe', uni, '-seed', str(vlib.seed()), '-out', trace])
     verdicts, tv = vlib.validate_traces('Trace_Exec', trace, vlib.exec_consts(soft='any'))
     viol, kf, others = attribute(prop, spec['owns'], verdicts, trace, known)
     for kid, (k, n) in kf.items():
@@ -142,10 +172,10 @@ def exec_engine(prop, tier, replay, t0):
                         'fields; non-trivial = the call reported an issue or wrote the destination; distinct by (schema,input,mode)',
                    samples=st['samples'], per_family=st['per_family'], trap_cases=traps,
                    visit_orders_forced=st['orders_forced'], visit_orders_not_reached=st['orders_unforced'],
-                   mc_config='MC_Exec Tier=%s invariants=%s properties=%s' % (tier, EXEC_INVS, EXEC_PROPS),
+                   mc_config=mc_desc, table_rows=table_rows,
                    deciding=spec['decide'], tlc_trace_states=tv['distinct'],
                    verdicts_owned_by_other_properties=others, known_findings={k: n for k, (_, n) in kf.items()},
-                   exhaustive=False)
+                   exhaustive=bool(spec.get('table')))
         vlib.write_evidence(prop, tier, 'model_checking', cov,
                             ['abstract leaf values 0..9 stand for classes of Go values (harness concretisation table)',
                              'the harness projection (flatten/abstractVal) is trusted',
